@@ -6,6 +6,7 @@ import (
 	"sort"
 	"strings"
 	"sync"
+	"time"
 
 	"verif/engine"
 )
@@ -228,7 +229,7 @@ type c14Case struct {
 	Ident string `json:"ident,omitempty"`
 	// Ident2 is a second, independent fault (thorough tier: all pairs, transport error before taking effect).
 	Ident2 string `json:"ident2,omitempty"`
-	Kind   string `json:"kind"` // transport aws500 ctx
+	Kind   string `json:"kind"` // transport aws500 ctx hang (hang: no answer until the connection's deadline expires)
 	Mode   string `json:"mode"` // before applied persistent
 }
 
@@ -239,14 +240,14 @@ func init() {
 
 func c14Run(r *engine.Run) int {
 	scen := c14Scenarios()
-	r.Rule = "for each scenario every request position of the connection under test x {transport error, AWS-style 500, cancelled context} x {fails before taking effect, takes effect then fails, persistent until the statement ends} is replayed; a case is non-trivial when the fault fired (all are, by construction) and distinct by (scenario, position, kind, mode)"
+	r.Rule = "for each scenario every request position of the connection under test x {transport error, AWS-style 500, cancelled context} x {fails before taking effect, takes effect then fails, persistent until the statement ends} is replayed, and every request position once more with NO answer at all while the connection's deadline is 2-3 s ahead (the request must end with the deadline: a request issued with a context that can never end is reported); a case is non-trivial when the fault fired (all are, by construction) and distinct by (scenario, position, kind, mode)"
 	var names []string
 	for _, s := range scen {
 		names = append(names, s.Name)
 	}
 	r.Bounds["scenarios"] = names
 	r.Bounds["faults_per_run"] = map[bool]string{false: "1", true: "1, and all pairs (transport, before effect)"}[r.Thorough()]
-	r.Assumptions = []string{"a well-formed 'no such object' answer is not injected here (C09 owns it)", "single fault (or one persistent burst) per run", "hang = request budget of 50x the fault-free request count exceeded, or the coarse worker watchdog"}
+	r.Assumptions = []string{"a well-formed 'no such object' answer is not injected here (C09 owns it)", "single fault (or one persistent burst) per run", "the unanswered-request cases use the real clock for the connection deadline (2-3 s ahead); a fault-free statement is assumed to take less than 2 s; a statement that misses it merely errors, which the oracle allows", "hang = request budget of 50x the fault-free request count exceeded, or the coarse worker watchdog"}
 	var cases []json.RawMessage
 	for si := range scen {
 		// the fault-free run tells how many requests there are
@@ -268,6 +269,11 @@ func c14Run(r *engine.Run) int {
 			}
 		}
 		for k, id := range d.Idents {
+			if r.Thorough() || !scen[si].DeleteDesc {
+				// (quick tier: the descending-deletion twins differ only inside vacuum; their unanswered-request
+				// cases are left to the thorough tier)
+				cases = append(cases, engine.J(c14Case{Scen: si, K: k, Ident: id, Kind: "hang", Mode: "before"}))
+			}
 			for _, kind := range []string{"transport", "aws500", "ctx"} {
 				for _, mode := range []string{"before", "applied", "persistent"} {
 					cases = append(cases, engine.J(c14Case{Scen: si, K: k, Ident: id, Kind: kind, Mode: mode}))
@@ -343,6 +349,9 @@ func c14Worker(raw json.RawMessage) *engine.Result {
 			fired = rq.String()
 			firedStmt = curStmt
 			firedIn[curStmt] = true
+			if c.Kind == "hang" {
+				return engine.FaultHang, nil
+			}
 			switch c.Mode {
 			case "applied":
 				if rq.Mutating() {
@@ -391,6 +400,11 @@ func c14Worker(raw json.RawMessage) *engine.Result {
 		w.SetClock(engine.T(clockT))
 		var rows engine.Rows
 		var err error
+		if c.Kind == "hang" {
+			// the connection's deadline is 2 to 3 s ahead of every statement (second resolution); only the
+			// statement whose request gets no answer ever reaches it. Setting it issues no request.
+			must(cl.Exec("update s3db_conn set deadline=?", time.Now().UTC().Add(3*time.Second).Format("2006-01-02 15:04:05")))
+		}
 		if opened && usesWT {
 			// explicit row times for this scenario; setting write_time issues no request
 			if st.WT > 0 {
@@ -407,6 +421,9 @@ func c14Worker(raw json.RawMessage) *engine.Result {
 					opened = true
 				} else {
 					active = false // the statement is over: a persistent burst ends with it
+					if c.Kind == "hang" {
+						must(cl.Exec("update s3db_conn set deadline=NULL"))
+					}
 					cl.Exec("drop table if exists {T}")
 				}
 			}
@@ -424,6 +441,13 @@ func c14Worker(raw json.RawMessage) *engine.Result {
 		}
 		active = false
 		res.Trans++
+		if c.Kind == "hang" {
+			must(cl.Exec("update s3db_conn set deadline=NULL"))
+			if hf := cl.H.HungForever(); len(hf) > 0 {
+				viol("request-ignores-deadline", "the connection's deadline was set, but during %s the request %s was issued with a context that can never end: without an answer from the store the statement blocks forever", st.Name, hf[0])
+				return res
+			}
+		}
 		if err != nil {
 			res.Outcomes = append(res.Outcomes, "error:"+st.Kind)
 			if c.K < 0 {
